@@ -353,11 +353,15 @@ def serdeIntDigits : Nat → Str → (Nat × Str) ⊕ Option (Nat × Str)
     | some d => if sig * 10 + d > u64Max then .inr (serdeLongInteger sig 0 (c :: t)) else serdeIntDigits (sig * 10 + d) t
     | none => .inl (sig, c :: t)
 
+/-- an optional leading `-` -/
+def splitSign (s : Str) : Bool × Str :=
+  match s with
+  | '-' :: t => (true, t)
+  | _ => (false, s)
+
 /-- serde_json WITHOUT `float_roundtrip` (best-effort precision).  `none` = not a JSON number / out of range. -/
 def Num.parsePrefixFast (s : Str) : Option (Num × Str) :=
-  let (negative, s1) := match s with
-    | '-' :: t => (true, t)
-    | _ => (false, s)
+  let (negative, s1) := splitSign s
   let signBit := if negative then 2 ^ 63 else 0
   let flt (r : Option (Nat × Str)) : Option (Num × Str) := r.map (fun (b, rest) => (.flt (b + signBit), rest))
   -- `parse_number`
@@ -391,9 +395,7 @@ def Num.parsePrefixFast (s : Str) : Option (Num × Str) :=
 /-- serde_json WITH `float_roundtrip`: every decimal text is converted with correct rounding (its
     `lexical` algorithm), whatever the number of digits.  `none` = not a JSON number / out of range. -/
 def Num.parsePrefixExact (s : Str) : Option (Num × Str) :=
-  let (negative, s1) := match s with
-    | '-' :: t => (true, t)
-    | _ => (false, s)
+  let (negative, s1) := splitSign s
   let intDigits := s1.takeWhile (fun c => (digitVal? c).isSome)
   let s2 := s1.dropWhile (fun c => (digitVal? c).isSome)
   if intDigits.isEmpty then none
